@@ -89,9 +89,10 @@ func parsimonyUPPASS(cur, prev *tree.Node, a align.Alignment, seqs []*AncestralS
 			} else {
 				if c == align.ALL_AMINO {
 					for k := range charToIndex {
-						possibilities = append(possibilities, k)
+						if k != align.GAP && k != align.OTHER {
+							possibilities = append(possibilities, k)
+						}
 					}
-					possibilities = possibilities[:len(possibilities)-2]
 				} else {
 					possibilities = append(possibilities, c)
 				}
